@@ -487,6 +487,8 @@ def pathLaws : MLaws (pathOps E) where
     show 0 < m.count
     omega
   repr_batch := fun m L ids h => prepr_batch m L ids h
+  repr_cache := fun _ _ _ _ h => h
+  cache_le := fun _ limit _ => Nat.le_refl limit
   mem_match := fun m L q r h _ => path_mem_match E m L h q r
   nodup_match := fun m L q h _ => path_nodup_match E m L h q
   mem_trace := fun m L q r _ _ => path_mem_trace E m q r
